@@ -1,0 +1,90 @@
+//go:build verif
+
+package freelist
+
+import (
+	"sort"
+
+	"go.etcd.io/bbolt/internal/common"
+)
+
+// Verification-only decorator (build tag `verif`): reports every operation made through the
+// public part of the interface. Internal calls (release, mergeSpans, ...) go to the wrapped value.
+
+type VerifTraceFn func(op string, txid, a, b, ret uint64)
+
+type verifTraced struct {
+	Interface
+	fn VerifTraceFn
+}
+
+func VerifWrap(f Interface, fn VerifTraceFn) Interface { return &verifTraced{Interface: f, fn: fn} }
+
+func (t *verifTraced) Allocate(txid common.Txid, n int) common.Pgid {
+	r := t.Interface.Allocate(txid, n)
+	t.fn("alloc", uint64(txid), uint64(n), 0, uint64(r))
+	return r
+}
+func (t *verifTraced) Free(txid common.Txid, p *common.Page) {
+	id, ov := uint64(p.Id()), uint64(p.Overflow())
+	t.Interface.Free(txid, p)
+	t.fn("free", uint64(txid), id, ov, 0)
+}
+func (t *verifTraced) Rollback(txid common.Txid) {
+	t.Interface.Rollback(txid)
+	t.fn("rollback", uint64(txid), 0, 0, 0)
+}
+func (t *verifTraced) AddReadonlyTXID(txid common.Txid) {
+	t.Interface.AddReadonlyTXID(txid)
+	t.fn("addreader", uint64(txid), 0, 0, 0)
+}
+func (t *verifTraced) RemoveReadonlyTXID(txid common.Txid) {
+	t.Interface.RemoveReadonlyTXID(txid)
+	t.fn("delreader", uint64(txid), 0, 0, 0)
+}
+func (t *verifTraced) ReleasePendingPages() {
+	t.Interface.ReleasePendingPages()
+	t.fn("release", 0, 0, 0, 0)
+}
+func (t *verifTraced) Init(ids common.Pgids) {
+	t.Interface.Init(ids)
+	t.fn("init", 0, uint64(len(ids)), 0, 0)
+}
+func (t *verifTraced) Read(p *common.Page) {
+	t.Interface.Read(p)
+	t.fn("read", 0, uint64(p.Id()), 0, 0)
+}
+func (t *verifTraced) Write(p *common.Page) {
+	t.Interface.Write(p)
+	t.fn("write", 0, uint64(p.Id()), uint64(p.Overflow()), 0)
+}
+func (t *verifTraced) Reload(p *common.Page) {
+	t.Interface.Reload(p)
+	t.fn("reload", 0, uint64(p.Id()), 0, 0)
+}
+func (t *verifTraced) NoSyncReload(ids common.Pgids) {
+	t.Interface.NoSyncReload(ids)
+	t.fn("nosyncreload", 0, uint64(len(ids)), 0, 0)
+}
+
+// VerifState returns the free ids (sorted) and the pending lists with allocating txids.
+func VerifState(f Interface) (free []uint64, pending map[uint64][][2]uint64, lrb map[uint64]uint64) {
+	if t, ok := f.(*verifTraced); ok {
+		f = t.Interface
+	}
+	for _, id := range f.freePageIds() {
+		free = append(free, uint64(id))
+	}
+	sort.Slice(free, func(i, j int) bool { return free[i] < free[j] })
+	pending = map[uint64][][2]uint64{}
+	lrb = map[uint64]uint64{}
+	for tid, txp := range f.pendingPageIds() {
+		var l [][2]uint64
+		for i, id := range txp.ids {
+			l = append(l, [2]uint64{uint64(id), uint64(txp.alloctx[i])})
+		}
+		pending[uint64(tid)] = l
+		lrb[uint64(tid)] = uint64(txp.lastReleaseBegin)
+	}
+	return
+}
